@@ -188,11 +188,33 @@ for isa, arch in (("x86", "zen1"), ("aarch64", "n1")):
                 check_entry("asmbench", got.get(name), name, ops, isa, ref_tp(fmt(tpv)), ref_lt(fmt(ltv)), dict(isa=isa, bench="asmbench", ending=ending))
         except Exception as e:
             R.fail("C20/import/asmbench/crash", f"{isa}:asmbench-ending", f"asmbench file with {ending}: import raised {e!r}")
-    for bad in [None] + list(range(len(blocks) if A.tier == "thorough" else 5)):
+    # kinds of corruption of one block: text on the separator line, the throughput line missing (separator kept), a
+    # measurement that is no number, latency and throughput lines interchanged (statement: a malformed block stops the
+    # import at that block without affecting earlier entries)
+    def block_lines(name, ops, tpv, ltv, kind):
+        lines = [f"{name}-{'_'.join(ops)}", f"Latency: {fmt(ltv)} cy", f"Throughput: {fmt(tpv)} cy", ""]
+        if kind == "garbage-separator":
+            lines[3] = "garbage"
+        elif kind == "throughput-line-missing":
+            lines = [lines[0], lines[1], ""]
+        elif kind == "not-a-number":
+            lines[1] = "Latency: n/a cy"
+        elif kind == "lines-interchanged":
+            lines[1], lines[2] = lines[2], lines[1]
+        return lines
+
+    kinds = ["garbage-separator", "throughput-line-missing", "not-a-number", "lines-interchanged"]
+    plan = [(None, None)] + [(b, "garbage-separator") for b in range(len(blocks) if A.tier == "thorough" else 5)] + [(b, k) for k in kinds[1:] for b in ((0, 2, 11) if A.tier != "thorough" else range(len(blocks)))]
+    for bad, kind in plan:
         text = []
         for j, (name, ops, tpv, ltv) in enumerate(blocks):
-            text += [f"{name}-{'_'.join(ops)}", f"Latency: {fmt(ltv)} cy", f"Throughput: {fmt(tpv)} cy", "garbage" if j == bad else ""]
-        got = run_import(arch, "asmbench", "\n".join(text) + "\n")
+            text += block_lines(name, ops, tpv, ltv, kind if j == bad else None)
+        try:
+            got = run_import(arch, "asmbench", "\n".join(text) + "\n")
+        except Exception as e:
+            R.case((isa, "asmbench", bad, kind), sample=dict(isa=isa, bench="asmbench", bad_block=bad, kind=kind))
+            R.fail("C20/import/asmbench/crash", f"{isa}:asmbench-malformed:{kind}", f"asmbench file whose block {bad} is malformed ({kind}): import raised {e!r} instead of stopping at that block", dict(isa=isa, bad_block=bad, kind=kind))
+            continue
         for j, (name, ops, tpv, ltv) in enumerate(blocks):
             R.case((isa, "asmbench", bad, j), sample=dict(isa=isa, bench="asmbench", bad_block=bad, form=name))
             if bad is not None and j >= bad:
